@@ -393,6 +393,10 @@ pub mod ebr {
         pub fn try_pop_if<F: Fn(&T) -> bool>(&self, f: F, guard: &Guard) -> Option<T> {
             self.0.try_pop_if(f, guard)
         }
+        /// Whether `tail` points to a node that is still reachable from `head`.
+        pub fn tail_reachable(&self, guard: &Guard) -> bool {
+            self.0.verif_tail_reachable(guard)
+        }
     }
 
     /// Element of a [`VList`].
